@@ -137,6 +137,22 @@ Proof.
 Qed.
 Print Assumptions C20_like_no_element_refuted.
 
+(* ---------- a numeric literal of another type than the key column's (finding C20-literal-type-mismatch) ----------
+   today's genRPNElementByVal stores the literal's bits as a value of the KEY's type: for the index the atom `f = 2` (integer
+   literal, float key) is `f = 1e-323`. Floats by rank: -1 = 0, 1e-323 = 1, 0.5 = 2, 1 = 3, 2 = 4; keys -1 0.5 | 1 1 | 2 2.
+   The rows are judged with the literal 2 (rank 4), the index with rank 1: fragment 2 holds the matching rows, Scan returns
+   fragment 0 only. With the literal converted (fix6.patch) the atom is an ordinary CAtom and C20_scan_sound applies. *)
+Theorem C20_literal_reinterpreted_refuted :
+  exists keys sizes i v v',
+    frag_matches nk0 (CAtom 0 Ceq v) sizes keys i /\
+    scan repaired [false] [EIn 0 (point (Fin v'))] (build_index sizes keys) (length sizes) 8 0 = ScanOk [(0, 1)%nat] /\
+    scan repaired [false] [EIn 0 (point (Fin v))] (build_index sizes keys) (length sizes) 8 0 = ScanOk [(1, 3)%nat].
+Proof.
+  exists [[Some 0]; [Some 2]; [Some 3]; [Some 3]; [Some 4]; [Some 4]], [2%nat; 2%nat; 2%nat], 2%nat, 4, 1.
+  split; [exists [Some 4]; split; [left; reflexivity | reflexivity]|]. split; vm_compute; reflexivity.
+Qed.
+Print Assumptions C20_literal_reinterpreted_refuted.
+
 (* ---------- bloom-filter skip index: today's reader / writer (findings C20-bloom-gram-phrase, C20-bloom-nonascii-token-boundary) ----------
    split table = {space, '/'}; hash positions of a token: two numbers computed from its bytes *)
 Open Scope nat_scope.
